@@ -225,6 +225,55 @@ def table_fidelity(ck, P, rule="R-TABLE-FIDELITY"):
                  "tag index — which features keep in encoded form — points at the wrong entry" % (fld, t.split("::")[-1], sorted(s)), ir.loc(calls[0]))
 
 
+def repeated_kept(ck, P, rule="R-TABLE-FIDELITY"):
+    """repeated message fields are kept completely: every `feature` (layer field 2) that was decoded is appended to the vector that
+    becomes the layer's feature list, every `layer` (tile field 3) to the tile's layer list - exactly one push on every path of the
+    arm, no condition on what was decoded (an unknown geometry type, an empty layer ... is still content of the tile)."""
+    for fq, fld, target, what in (("vector_tile::layer::VectorTileLayer::read", 2, "features", "feature"), ("vector_tile::tile::VectorTile::from_blob", 3, "layers", "layer")):
+        rd = [b for b in P.bodies if b["q"].endswith(fq)]
+        if not ck.anchor(rule, fq.rsplit("::", 2)[-2] + " reader", rd, 1):
+            continue
+        b = rd[0]
+        tab, m, arms = reader_table(b)
+        arm = next((a for a in arms if a["pat"]["ps"][0]["e"]["v"] == fld), None)
+        key = "%s|field%d-kept" % (b["q"], fld)
+        if arm is None:
+            ck.violation(rule, key, "no reader arm for field %d" % fld, ir.loc(b))
+            continue
+        def root_of(r):
+            r = ir.strip(r)
+            if ir.local_hid(r) is not None:
+                return ("local", ir.local_hid(r))
+            if r.get("k") == "field" and r.get("name") == target and ir.local_hid(ir.strip(r["e"])) is not None:
+                return ("field", ir.local_hid(ir.strip(r["e"])))
+            return None
+        pushes = [n for n in ir.walk_nodes(arm["body"]) if n.get("k") == "mcall" and n.get("q") == "alloc::vec::Vec::push" and root_of(n["recv"]) is not None]
+        vhs = {root_of(n["recv"]) for n in pushes}
+        cnt = _arm_counts(P, arm["body"], lambda n: 1 if any(n is x for x in pushes) else None) if len(vhs) == 1 else {0}
+        flows = False
+        if len(vhs) == 1 and next(iter(vhs))[0] == "field":
+            # pushed straight into the `target` field of the value under construction, which is what the function returns
+            th = next(iter(vhs))[1]
+            t = ir.strip(ir.fn_block(b).get("tail") or {})
+            flows = t.get("k") == "call" and (t.get("q") or "").endswith("Result::Ok::{Ctor#0}") and ir.local_hid(ir.strip(t["a"][0])) == th
+            others = [n["name"] for n in ir.walk_nodes(b["body"]) if n.get("k") == "mcall" and root_of(n["recv"]) == ("field", th) and n["name"] != "push" and (n["recv"].get("ta") or "").startswith("&mut")]
+            flows = flows and not others
+        elif len(vhs) == 1:
+            vh = next(iter(vhs))[1]
+            for n in ir.walk_nodes(b["body"]):
+                if n.get("k") == "struct":
+                    for f in n["fields"]:
+                        if f["name"] == target and ir.local_hid(ir.strip(f["e"])) == vh:
+                            flows = True
+                if n.get("k") == "call" and (n.get("q") or "").endswith(("VectorTile::new", "VectorTileLayer::new")) and any(ir.local_hid(ir.strip(a)) == vh for a in n.get("a", ())):
+                    flows = True
+            muts = [n["name"] for n in ir.walk_nodes(b["body"]) if n.get("k") == "mcall" and ir.local_hid(n["recv"]) == vh and (n["recv"].get("ta") or "").startswith("&mut") and n["name"] != "push"]
+            flows = flows and not muts
+        ck.check(cnt == {1} and flows, rule, key, "every decoded %s is appended (exactly one push on every path of the arm) to the vector that becomes the %s list" % (what, target),
+                 "decoded %ss are not all kept: pushes per path of the arm %s, vector reaches `%s` unchanged: %s - a %s the reader decides to skip disappears from every merged / rewritten tile" %
+                 (what, sorted(cnt), target, flows, what), ir.loc(arm["body"]))
+
+
 def _arm_counts(P, arm_body, ev):
     return exit_counts(P, {"body": arm_body}, ev)
 
